@@ -289,7 +289,10 @@ func runC11Compose(t *testing.T, c simrt.Chooser, o Opts) *Out {
 			case 1:
 				macS = strings.ReplaceAll(macS, ":", "-")
 			}
-			switch p.n("fields", 5) {
+			switch p.n("fields", 6) {
+			case 5:
+				// unknown extra fields may be long (well below the 64 KiB a line may have)
+				fmt.Fprintf(&sb, "{\"ip\":%q,\"mac\":%q,\"vendor\":%q,\"note\":%q}\n", ipS, macS, strings.Repeat("Research & Design ", 4+p.n("vlen", 40)), strings.Repeat("x", p.n("nlen", 3000)))
 			case 0:
 				fmt.Fprintf(&sb, "{\"ip\":%q,\"mac\":%q}\n", ipS, macS)
 			case 1:
